@@ -158,7 +158,7 @@ func (st *State) forEachAlt(mx Mux, f func(i int, a Value)) {
 		if saved != nil {
 			g = st.b.BAnd(saved, g)
 		}
-		if g == st.b.False {
+		if g == st.b.False || st.refuted(mx.G[i]) {
 			continue
 		}
 		st.guard = g
@@ -820,6 +820,18 @@ func (st *State) lookup(fr *Frame, in *ssa.Lookup) Value {
 				hit = append(hit, g)
 			}
 			okT := b.BOr(hit...)
+			if kn, isNode := kv.(*term.Node); isNode && kn.UHi >= kn.ULo && kn.UHi-kn.ULo < 1024 {
+				inRange := uint64(0)
+				for _, k := range m.Keys {
+					if kc, isC := k.(*term.Node); isC && kc.IsConst() && kc.K >= kn.ULo && kc.K <= kn.UHi {
+						inRange++
+					}
+				}
+				if inRange == kn.UHi-kn.ULo+1 && len(gs) > 0 {
+					// every value the key can take is a (distinct) key of the map: no miss
+					return Agg{st.muxValues(gs, vs), b.True}
+				}
+			}
 			gs = append(gs, b.BNot(okT))
 			vs = append(vs, zero)
 			return Agg{st.muxValues(gs, vs), okT}
